@@ -17,7 +17,7 @@ pub struct Setting<L: LayoutTrait> {
     pub trace_gen: Felt,
 }
 
-fn setting<L: LayoutTrait>(pf: &ProofFile, rng: &mut SplitMix) -> Setting<L> {
+pub fn setting<L: LayoutTrait>(pf: &ProofFile, rng: &mut SplitMix) -> Setting<L> {
     let p = &pf.loaded.proof;
     let mut t = Transcript::new(rng.felt());
     let c = L::traces_commit(&mut t, &p.unsent_commitment.traces, p.config.traces.clone());
@@ -31,7 +31,7 @@ fn setting<L: LayoutTrait>(pf: &ProofFile, rng: &mut SplitMix) -> Setting<L> {
     }
 }
 
-fn comp<L: LayoutTrait>(s: &Setting<L>, pi: &PublicInput, coeffs: &[Felt]) -> Result<Felt, String> {
+pub fn comp<L: LayoutTrait>(s: &Setting<L>, pi: &PublicInput, coeffs: &[Felt]) -> Result<Felt, String> {
     match panics::catch(|| L::eval_composition_polynomial(&s.ie, pi, &s.mask, coeffs, &s.point, &s.trace_size, &s.trace_gen)) {
         Ok(Ok(v)) => Ok(v),
         Ok(Err(e)) => Err(format!("{:?}", e)),
